@@ -640,6 +640,10 @@ pub fn opts(idx: u64, rng: &mut Rng) -> ScenarioOpts {
         },
         gas_price,
         tight_gas: 200,
+        // non-standard parameters (random non-zero base asset id, chain id, max_inputs) in
+        // half of the priced cases and a fifth of the others: change/refund of the
+        // configured base asset, not of AssetId::BASE
+        vary_params: if idx % 6 == 0 || idx % 5 == 2 { 1000 } else { 0 },
         ..Default::default()
     }
 }
